@@ -19,13 +19,13 @@ func (core *JApiCore) buildCatalog() *jerr.JApiError {
 		return core.japiError(jerr.DirectiveJSIGHTShouldBeTheFirst, 0)
 	}
 
-	if core.directivesWithPastes[0].Type() != directive.Jsight {
-		return core.directivesWithPastes[0].KeywordError(jerr.DirectiveJSIGHTShouldBeTheFirst)
-	}
-
 	// MACRO definitions are not in the list above, but JSIGHT has to precede them too.
 	if core.firstDirective != nil && core.firstDirective.Type() != directive.Jsight {
 		return core.firstDirective.KeywordError(jerr.DirectiveJSIGHTShouldBeTheFirst)
+	}
+
+	if core.directivesWithPastes[0].Type() != directive.Jsight {
+		return core.directivesWithPastes[0].KeywordError(jerr.DirectiveJSIGHTShouldBeTheFirst)
 	}
 
 	return core.addDirectives()
